@@ -133,8 +133,23 @@ static void vs_child_exit(void) {
     _exit(0);
 }
 
+/* Default continuation: keep running the current thread (non-preemptive), but fairly: after VS_QUANTUM
+ * consecutive steps of one thread while another thread is runnable, switch round-robin. Library code may
+ * legitimately poll (aws_thread_join_all_managed re-checks under the lock while one thread is still running);
+ * a schedule that never lets the other thread run is an artefact, not a behaviour of a real scheduler. */
+#define VS_QUANTUM 24
+static int vs_run_len, vs_run_thread = -1;
 static int vs_default_pick(uint64_t mask, int cur) {
+    uint64_t threads = mask & ~(1ull << VS_TIMER_ID);
     if (cur >= 0 && (mask >> cur) & 1) {
+        if (vs_run_thread == cur && vs_run_len >= VS_QUANTUM && (threads & ~(1ull << cur))) {
+            for (int k = 1; k < 62; ++k) {
+                int i = (cur + k) % 62;
+                if ((threads >> i) & 1) {
+                    return i;
+                }
+            }
+        }
         return cur;
     }
     for (int i = 0; i < 62; ++i) {
@@ -206,7 +221,7 @@ static int vs_pick(uint64_t mask, int cur) {
         }
         if (vs_nchoice < VS_MAXCHOICE) {
             vs_choice[vs_nchoice].chosen = c;
-            vs_choice[vs_nchoice].cur = cur;
+            vs_choice[vs_nchoice].cur = vs_default_pick(mask, cur); /* the choice that costs no preemption */
             vs_choice[vs_nchoice].mask = mask;
             vs_nchoice++;
         }
@@ -405,6 +420,12 @@ static void vs_schedule(void) {
             continue;
         }
         next = &vs_T[c];
+        if (vs_run_thread == c) {
+            vs_run_len++;
+        } else {
+            vs_run_thread = c;
+            vs_run_len = 1;
+        }
         vs_apply(next);
         if (++vs_nsteps > vs_step_cap) {
             vs_fatal_event("StepCap");
@@ -629,6 +650,10 @@ int __wrap_pthread_create(pthread_t *out, const pthread_attr_t *attr, void *(*fn
 }
 static struct vs_thread *vs_find(pthread_t p) {
     for (int i = 1; i < vs_nthreads; ++i) {
+        /* a joined (or detached and finished) thread's pthread_t may be reused by a later thread */
+        if (vs_T[i].joined || (vs_T[i].detached && vs_T[i].state == VST_EXITED)) {
+            continue;
+        }
         if (__real_pthread_equal(vs_T[i].real, p)) {
             return &vs_T[i];
         }
@@ -746,6 +771,7 @@ static void vs_run_child(vs_scenario_fn scenario, char **lines, int nlines) {
 }
 
 /* ---- parent side: batch runner with fork per execution and bounded-preemption DFS */
+#define VS_DFS_MAX_DEPTH 600 /* choice points per execution that the systematic exploration branches on */
 struct vs_item {
     int *pre;
     int n;
@@ -855,13 +881,12 @@ static void vs_dfs(vs_scenario_fn scenario, char **lines, int nlines, long budge
             int pc = 0;
             for (int i = 0; i < n; ++i) {
                 bool cur_en = cur[i] >= 0 && ((mask[i] >> cur[i]) & 1);
-                if (i >= it.n) {
+                if (i >= it.n && i < VS_DFS_MAX_DEPTH) {
                     for (int a = 0; a < 63; ++a) {
                         if (!((mask[i] >> a) & 1) || a == chosen[i]) {
                             continue;
                         }
-                        bool others = (mask[i] & ~(1ull << VS_TIMER_ID)) != 0;
-                        int np = pc + (((cur_en && a != cur[i]) || (a == VS_TIMER_ID && others)) ? 1 : 0);
+                        int np = pc + ((cur_en && a != cur[i]) ? 1 : 0);
                         if (np > bound) {
                             continue;
                         }
@@ -878,8 +903,7 @@ static void vs_dfs(vs_scenario_fn scenario, char **lines, int nlines, long budge
                         bucket[np][cnt[np]++] = (struct vs_item){pre, i + 1, np};
                     }
                 }
-                if ((cur_en && chosen[i] != cur[i]) ||
-                    (chosen[i] == VS_TIMER_ID && (mask[i] & ~(1ull << VS_TIMER_ID)) != 0)) {
+                if (cur_en && chosen[i] != cur[i]) {
                     pc++;
                 }
             }
